@@ -15,7 +15,7 @@
    hypothesis ec_group (an abelian group whose operation satisfies add_rel/dbl_rel and
    which has no point with y = 0).  ec_group is a HYPOTHESIS for the 17 shipped curves
    (together with primality of p, which it contains) and is PROVED by enumeration for
-   the six small curves of Proofs/EcSmall.v. *)
+   the five small curves of Proofs/EcSmall.v. *)
 From Coq Require Import List Bool ZArith Znumtheory.
 From Bec2 Require Import Base.Result Base.Modp Gen.EcFormulas Gen.Curves Model.Ec
   Proofs.EcFormulaProofs Proofs.EcNafProofs Proofs.EcMulProofs Proofs.EcMulAddProofs Proofs.EcTotalProofs
@@ -344,13 +344,12 @@ Theorem C17_params : length curves = 17%nat /\ forall c, In c curves ->
 Proof. split; [exact curves_count | exact params_spec]. Qed.
 Print Assumptions C17_params.
 
-(* n * G = INFINITY, computed with the model of __mul__.  PARTIAL: only the two 112-bit
-   curves are evaluated inside Coq (the thorough tier re-checks every proof with coqchk,
-   which has no bytecode VM: a 256-bit multiplication costs it ten minutes); the search
+(* n * G = INFINITY, computed with the model of __mul__.  PARTIAL: only SECP112r1 is
+   evaluated inside Coq (the thorough tier re-checks every proof with coqchk, which has no
+   bytecode VM: one 112-bit multiplication costs it a minute, a 256-bit one ten); the search
    checks n*G on the implementation for all 17 curves. *)
-Theorem C17_order_partial :
-  order_check SECP112r1 = true /\ order_check SECP112r2 = true.
-Proof. exact (conj order_SECP112r1 order_SECP112r2). Qed.
+Theorem C17_order_partial : order_check SECP112r1 = true.
+Proof. exact order_SECP112r1. Qed.
 Print Assumptions C17_order_partial.
 
 (* ===================================================================== *)
